@@ -82,8 +82,8 @@ def load_known(prop: str) -> List[dict]:
     if p.exists():
         for line in p.read_text().splitlines():
             line = line.strip()
-            if not line or line.startswith("#"):
-                continue
+            if not line or line.startswith("#") or line.startswith("fixed:"):
+                continue  # `fixed:` lines document repaired defects; they suppress nothing
             d = json.loads(line)
             if d.get("property") == prop:
                 out.append(d)
